@@ -74,7 +74,9 @@ class Intrinsics:
             return ex.concrete_op(lambda: fn(a, b))
         if isinstance(a, tuple) and isinstance(b, tuple) and isinstance(op, ast.Add) and not isinstance(a, Tagged) and not isinstance(b, Tagged):
             return a + b
-        num = (SInt, SBool, SReal, int, float, bool)
+        import decimal as _dec0
+
+        num = (SInt, SBool, SReal, int, float, bool, _dec0.Decimal)
         if isinstance(a, num) and isinstance(b, num) and not isinstance(a, str) and not isinstance(b, str):
             return self.num_binop(op, a, b)
         strs = (SStr, str, SMarkup)
@@ -122,6 +124,24 @@ class Intrinsics:
     def num_binop(self, op, a, b):
         ex = self.ex
         real = isinstance(a, (SReal, float)) or isinstance(b, (SReal, float))
+        import decimal as _dec
+
+        def _nonfinite(v):
+            if isinstance(v, float):
+                return v != v or v in (float("inf"), float("-inf"))
+            if isinstance(v, _dec.Decimal):
+                return not v.is_finite()
+            return False
+
+        if _nonfinite(a) or _nonfinite(b):
+            # inf/nan with a symbolic number: an opaque number, or (Decimal) an arithmetic error
+            if ex.pure:
+                raise Unsupported("arithmetic with inf/nan in a specification")
+            if isinstance(a, _dec.Decimal) or isinstance(b, _dec.Decimal) or isinstance(op, (ast.Mod, ast.FloorDiv, ast.Div)):
+                if ex.decide(ex.fresh("arith_fails", "bool").t):
+                    ex.raise_builtin("ArithmeticError", "arithmetic on a non-finite number")
+            return ex.over_approximate("nonfinite_result", "any", "arithmetic with inf/nan read as an opaque number")
+        real = real or isinstance(a, _dec.Decimal) or isinstance(b, _dec.Decimal)
         if real:
             for v in (a, b):
                 if isinstance(v, float) and (v != v or v in (float("inf"), float("-inf"))):
@@ -223,6 +243,10 @@ class Intrinsics:
             return z3.ToReal(self.ex.to_int_term(v))
         if isinstance(v, float):
             return z3.RealVal(repr(v))
+        import decimal as _dec1
+
+        if isinstance(v, _dec1.Decimal) and v.is_finite():
+            return z3.RealVal(str(v))
         raise Unsupported(f"real term of {v!r}")
 
     def compare(self, op, a, b):
@@ -788,7 +812,13 @@ class Intrinsics:
     def havoc_dict(self, name, d: HDict):
         ex = self.ex
         if d.concrete is not None:
-            raise Unsupported(f"havoc of concrete dict {name}")
+            # a table with fixed keys (e.g. tag_namespace): havoc what its entries hold
+            for k, v in list(d.concrete.items()):
+                if isinstance(v, (HDict, HList, HJoin, HSpecList)):
+                    ex.havoc_heap(f"{name}[{k!r}]", v, None)
+                else:
+                    d.concrete[k] = ex.havoc_value(f"{name}[{k!r}]", v)
+            return
         ks = ELEM_SORT[d.ksort]
         d.has = z3.Const(f"{name}.has!{ex.fresh_n}", z3.ArraySort(ks, BoolSort))
         ex.fresh_n += 1
